@@ -263,6 +263,11 @@ Definition init (c : config) : state := {|
   stop_req := false; cancelled := false; run_cancelled := false; crashed := false |}.
 
 Section Model.
+  (* [stop_locked]: false = Run.shutdown as it was (Transition(Stopping) BEFORE r.mutex.Lock: refused while a
+     Reload is in the Reloading state, so that Run() then closes the listener under the state Running);
+     true = with hooks/candidate-fix-c12-stopping-under-mutex.patch (the mutex is taken first, so an in-flight
+     Reload has left Reloading before the transition is attempted). *)
+  Variable stop_locked : bool.
   Variable validated : bool.
   Variable mux_ok : list str -> bool.
 
@@ -323,7 +328,8 @@ Section Model.
     match kpc s with
     | KStopWait sid | KCleanup sid =>
       match srv_at s sid with
-      | Some sv => str_eqb (addr (s_cfg sv)) a && sv_pc_eqb (s_pc sv) SvListening
+      | Some sv => str_eqb (addr (s_cfg sv)) a     (* whatever the serve goroutine has logged meanwhile: the
+                                                      dial may have completed before ListenAndServe returned *)
       | None => false
       end
     | _ => false
@@ -357,8 +363,8 @@ Section Model.
     | LRunWake =>                          (* select: ctx.Done or StopCh; runCancel; Transition(Stopping) *)
       match rpc s with
       | RSelect => if cancelled s || stop_req s
-                   then Some (with_rpc (transition (with_env s (stoppers s) (stop_req s) (cancelled s) true) FStopping)
-                                       RWantStop)
+                   then let s1 := with_env s (stoppers s) (stop_req s) (cancelled s) true in
+                        Some (with_rpc (if stop_locked then s1 else transition s1 FStopping) RWantStop)
                    else None
       | _ => None
       end
@@ -371,7 +377,8 @@ Section Model.
       end
     | LRunLockStop =>
       match rpc s, holder s with
-      | RWantStop, None => Some (with_rpc (with_crit s (Some ByRun) KStopPending) RInStop)
+      | RWantStop, None =>                 (* r.mutex.Lock(); repaired: Transition(Stopping) under the mutex *)
+        Some (with_rpc (with_crit (if stop_locked then transition s FStopping else s) (Some ByRun) KStopPending) RInStop)
       | _, _ => None
       end
     | LRunRet r =>
@@ -709,6 +716,8 @@ Definition key (s : state) : list N :=
 
 (* THE switch: false = the code as it is in /repo (NewConfig does not validate patterns);
    flip to true once hooks/fix-c19-validate-mux-patterns.patch is committed in /repo *)
+(* the same for Run.shutdown: false = /repo before hooks/candidate-fix-c12-stopping-under-mutex.patch *)
+Definition stop_locked_now : bool := true.
 Definition validated_now : bool := true.   (* /repo d243ed6: NewConfig validates the patterns *)
 
 (* BootCrash's guard as a stand-alone predicate (used by the C19 driver): does booting this route
@@ -717,10 +726,10 @@ Definition predicts_crash (validated : bool) (mux_ok : list str -> bool) (rs : l
   new_config_ok validated mux_ok rs && negb (mux_ok (map rpath rs)).
 
 (* ---- the acceptor instance used by the correspondence check (LTS.accept_from) ---- *)
-Definition http_accept (validated : bool) (mux_ok : list str -> bool) (fuel : nat) (c0 : config)
+Definition http_accept (stop_locked validated : bool) (mux_ok : list str -> bool) (fuel : nat) (c0 : config)
   (t : list event) : list state * bool :=
-  accept_from state label event (step validated mux_ok) obs (taus) (vis) event_eqb key fuel [init c0] t.
+  accept_from state label event (step stop_locked validated mux_ok) obs (taus) (vis) event_eqb key fuel [init c0] t.
 
-Definition http_depth (validated : bool) (mux_ok : list str -> bool) (fuel : nat) (c0 : config)
+Definition http_depth (stop_locked validated : bool) (mux_ok : list str -> bool) (fuel : nat) (c0 : config)
   (t : list event) : nat :=
-  accept_depth state label event (step validated mux_ok) obs (taus) (vis) event_eqb key fuel [init c0] t.
+  accept_depth state label event (step stop_locked validated mux_ok) obs (taus) (vis) event_eqb key fuel [init c0] t.
